@@ -135,12 +135,22 @@ class Problem:
                 self.move_xk = bool(rng.random() < 0.5)
         # residuals in small / large units (a Jacobian whose singular values are far from 1)
         self.runit = float(10 ** rng.uniform(-9, 4)) if (rng.random() < 0.25 and self.noise == 0.0) else 1.0
+        # extra regression steps after successful iterations (documented options), geometry or random 'momentum' type, half of
+        # them with a noisy objective sampled several times: the stored residual of an inserted point must be the mean of ITS samples
+        self.extra_steps, self.momentum = 0, False
+        if rng.random() < 0.18:
+            self.extra_steps = int(rng.integers(1, 4))
+            self.momentum = bool(rng.random() < 0.6)
+            if rng.random() < 0.5 and self.nsamp == 1:
+                self.nsamp = int(rng.integers(2, 4))
+                self.noise = float(10 ** rng.uniform(-4, -2))
+                self.runit = 1.0
 
     def describe(self):
         return {"n": self.n, "m": self.m, "kind": self.kind, "bounds": self.bounds is not None, "scaling": self.scaling,
                 "npt": self.npt, "maxfun": self.maxfun, "rhoend": self.rhoend, "restart": self.restart, "nsamples": self.nsamp,
                 "noise": self.noise, "use_old_rk": self.use_old_rk, "increase_npt": self.increase_npt, "residual_unit": self.runit,
-                "move_xk": self.move_xk}
+                "move_xk": self.move_xk, "extra_steps": self.extra_steps, "momentum": self.momentum}
 
     def resid_exact(self, x):
         r = self.A.dot(x) - self.b
@@ -179,6 +189,10 @@ def run_problem(dfols, prob, capture=None):
             up["restarts.soft.move_xk"] = False
     elif prob.nsamp > 1:
         up["restarts.use_restarts"] = False
+    if prob.extra_steps:
+        up["regression.num_extra_steps"] = prob.extra_steps
+        up["regression.momentum_extra_steps"] = prob.momentum
+        np.random.seed(prob.noise_seed % (2 ** 32))     # momentum directions come from NumPy's global generator
     if prob.runit != 1.0:
         up["model.abs_tol"] = 1e-20 * prob.runit ** 2      # keep the 'sufficiently small' exit in proportion to the units
     kw = dict(npt=prob.npt, maxfun=prob.maxfun, rhoend=prob.rhoend, user_params=up, do_logging=False,
@@ -384,11 +398,15 @@ def correspondence(ctx):
             labels = None if soln.jacmin_eval_nums is None else [int(v) for v in soln.jacmin_eval_nums]
             if labels != [int(v) for v in hit["labels"]]:
                 # another capture with the same matrix and the right labels? (identical refits)
-                ok = any((c["J"] / scale[None, :] if prob.scaling else c["J"]).tobytes() == J.tobytes() and [int(v) for v in c["labels"]] == labels
-                         for c in captures)
-                if not ok:
+                same = [c for c in captures if (c["J"] / scale[None, :] if prob.scaling else c["J"]).tobytes() == J.tobytes()
+                        and [int(v) for v in c["labels"]] == labels]
+                if not same:
                     ctx.broke("correspondence:C11_labels-snapshot", {"run": i, "cfg": prob.describe(), "soln": labels, "fit": [int(v) for v in hit["labels"]]})
                     continue
+                # the fit that was returned is THAT capture (its rows are in the order of `labels`); comparing the named
+                # evaluations with the rows of a later, bit-identical refit in another row order was a thorough-tier false alarm
+                hit = same[-1]
+                count("identical_refit_with_other_labels")
             # (2) un-scaling, exactly
             if prob.scaling:
                 lines.append("iunscale %d %d | %s | %s" % (prob.n, prob.m, ic.rat_tokens(scale), ic.rat_tokens(hit["J"])))
